@@ -401,7 +401,8 @@ func (lm *levelManager) compactL0() {
 	}
 
 	// merge sstables
-	mergedEntries := kway.Merge(dataBlockList...)
+	// keep tombstones, they hide older versions which may still exist in this or deeper levels
+	mergedEntries := kway.MergeWithTombstones(dataBlockList...)
 
 	discarded := lm.discardStaleEntries(mergedEntries)
 
@@ -488,7 +489,8 @@ func (lm *levelManager) compactLN(n int) {
 	dataBlockList = append(dataBlockList, dataBlockLN.Entries)
 
 	// merge sstables
-	mergedEntries := kway.Merge(dataBlockList...)
+	// keep tombstones, they hide older versions which may still exist in this or deeper levels
+	mergedEntries := kway.MergeWithTombstones(dataBlockList...)
 
 	discarded := lm.discardStaleEntries(mergedEntries)
 
